@@ -136,6 +136,11 @@ def tree_cases(tier):
     for f in ['SUM(1,,2)', 'IF(TRUE,{1,2;3,4},"a,b")', 'SUM((B1,C1))', 'SUM(B1:C2 C1:D2)', 'B1:C2', '-{1,-2}', '"q""r"&"x"', "'My Sheet'!A1+'[b.xlsx]It''s'!B2",
               'SUM(B:B)', 'SUM(2:3)', 'RATE_X*2', '#REF!+1', 'IFERROR(#N/A,"")', '1E+20+1E-5', '0.1+0.2']:
         yield ['text', f]
+    # constant formulas whose value is compared too: literals beyond 15 significant digits and at the ends of the double range
+    for f in ['0.30000000000000004', '(0.1+0.2)=0.30000000000000004', 'MOD(9007199254740993,10)', '12345678901234567-12345678901234560', '3.14159265358979312',
+              '1.7976931348623157E+308', '2.2250738585072014E-308', '4.9406564584124654E-324*1E+300', '0.1000000000000000055511151231257827', '123456789.123456789',
+              '1E+15+0.3', '99999999999999999999', '0.000000000000000000012345678901234567', '1E-7', '100000000000000000000000', '1.5E+300*1', '-0.30000000000000004']:
+        yield ['text', f, 'value']
 
 
 def export_of(text):
@@ -171,7 +176,7 @@ def run_tree(case):
     e2 = b2[-1].get_expr
     if e2 != e1:
         fails.append(Fail('export-drift', got=e2, exp=e1, text=text, export=e1, signrun=sr, pctpct='%%' in e1))
-    if case[0] == 'tree':
+    if case[0] == 'tree' or (case[0] == 'text' and len(case) > 2):
         v1, v2 = value_of(b, ENV), value_of(b2, ENV)
         if v1 != v2 and not (v1[0] == 'n' and v2[0] == 'n' and close(v1, v2, 1e-12)):
             fails.append(Fail('value-changed', got=v2, exp=v1, text=text, export=e1, signrun=sr, pctpct='%%' in e1))
@@ -192,6 +197,14 @@ RAW = {
                                   "'[b.xlsx]S'!C1": "=SUM('[b.xlsx]S'!A1:B4)", "'[b.xlsx]S'!C2": "=COUNT('[b.xlsx]S'!A2:A6)+'[b.xlsx]S'!A5"},
     'sparse-ranges-2': {"'[b.xlsx]S'!A1": 1, "'[b.xlsx]S'!C3": 2, "'[b.xlsx]S'!E1": "=SUM('[b.xlsx]S'!A1:C3)", "'[b.xlsx]S'!E2": "=SUM('[b.xlsx]S'!B2:D4)",
                         "'[b.xlsx]S'!E3": "=SUM('[b.xlsx]S'!B1:B5)+'[b.xlsx]S'!B2", "'[b.xlsx]S'!E4": "=SUM('[b.xlsx]S'!A2:D2)"},
+    # numeric literals that need more than 15 significant digits, at the ends of the double range
+    'long-literals': {"'[b.xlsx]S'!A1": "=(0.1+0.2)=0.30000000000000004", "'[b.xlsx]S'!A2": "=MOD(9007199254740993,10)", "'[b.xlsx]S'!A3": "=3.14159265358979312*1E+15",
+                      "'[b.xlsx]S'!A4": "=12345678901234567-12345678901234560", "'[b.xlsx]S'!A5": "=(0.1+0.2-0.30000000000000004)*1E+17",
+                      "'[b.xlsx]S'!A6": "=1.7976931348623157E+308/10", "'[b.xlsx]S'!A7": "=2.2250738585072014E-308*2", "'[b.xlsx]S'!A8": "=0.1000000000000000055511151231257827*3",
+                      "'[b.xlsx]S'!A9": 0.30000000000000004, "'[b.xlsx]S'!A10": 9007199254740993, "'[b.xlsx]S'!A11": "='[b.xlsx]S'!A9=0.1+0.2"},
+    # cells and ranges without sheet or workbook (the form of the library's own from_dict example), with unpopulated cells read alone and in ranges
+    'sheetless': {"A1": 1, "A2": 2, "B1": "=SUM(A1:A3)", "B2": "=A4+1", "B3": "=A1&A5", "C1": "=B1*2", "C2": "=SUM(A1:A2)+COUNT(A6:A8)"},
+    'sheet-only': {"S!A1": 1, "S!A2": 2, "S!B1": "=SUM(S!A1:A3)", "S!B2": "=S!A4+1", "T!A1": "=S!B1+S!A9"},
     'hex-and-arrays': {"'[b.xlsx]S'!A1": 255, "'[b.xlsx]S'!B1": "=DEC2HEX('[b.xlsx]S'!A1)", "'[b.xlsx]S'!C1:D2": "={1,2;3,4}*'[b.xlsx]S'!A1", "'[b.xlsx]S'!E1": "=SUM('[b.xlsx]S'!C1:D2)"},
 }
 
